@@ -172,29 +172,35 @@ def run(call: GeneratorCall) -> Module:
             raise RuntimeError(msg)
         the_cache.pending.add(call)
 
-    # Check that the call has a valid instance of the generator's parameter-class
-    if not isinstance(call.params, call.gen.Params):
-        msg = f"Invalid Generator Call {call}: {call.gen.Params} instance required, got {call.params}"
-        raise RuntimeError(msg)
+    try:
+        # Check that the call has a valid instance of the generator's parameter-class
+        if not isinstance(call.params, call.gen.Params):
+            msg = f"Invalid Generator Call {call}: {call.gen.Params} instance required, got {call.params}"
+            raise RuntimeError(msg)
 
-    # The main event: Run the generator-function
-    m = call.gen.func(call.params)
+        # The main event: Run the generator-function
+        m = call.gen.func(call.params)
 
-    if not isinstance(m, Module):
-        msg = f"Generator {call.gen} returned {m}, must return `Module`."
-        raise RuntimeError(msg)
+        if not isinstance(m, Module):
+            msg = f"Generator {call.gen} returned {m}, must return `Module`."
+            raise RuntimeError(msg)
 
-    # Give the result a reference back to the generating `Call`
-    m._generated_by = call
+        # Give the result a reference back to the generating `Call`
+        m._generated_by = call
 
-    # Module naming
-    # If the Module that comes back is anonymous, start by giving it a name equal to the Generator's
-    if m.name is None:
-        m.name = call.gen.name
+        # Module naming
+        # If the Module that comes back is anonymous, start by giving it a name equal to the Generator's
+        if m.name is None:
+            m.name = call.gen.name
 
-    # If it has a nonzero number of parameters, add a unique suffix per its parameter-values
-    if hasparams(call.gen.Params):
-        m.name += "(" + _unique_name(call.params) + ")"
+        # If it has a nonzero number of parameters, add a unique suffix per its parameter-values
+        if hasparams(call.gen.Params):
+            m.name += "(" + _unique_name(call.params) + ")"
+    except Exception:
+        # The call failed, and is no longer in flight. A later, identical call runs the generator again.
+        the_cache.stack.pop()
+        the_cache.pending.discard(call)
+        raise
 
     # Store the result in our cache, and on the Call.
     the_cache.stack.pop()
